@@ -29,21 +29,62 @@ pub fn show_parsed(r: &Result<IntermediatePolynomial, spindalis_core::polynomial
     }
 }
 
-fn same_eval(a: &Result<f64, PolynomialError>, b: &Result<f64, PolynomialError>) -> bool {
+/// same answer of two evaluation routes: both refused (the statement names no error kind), or values that agree up to
+/// the rounding the statement allows - `tol` is twice the bound tools/props/c02.py judges `main` against (`_tol`),
+/// `None` when a factor or a partial product leaves [2^-900, 2^900] (the order of the operations decides what over- /
+/// underflow does: only Ok / Err is compared there)
+fn same_eval(a: &Result<f64, PolynomialError>, b: &Result<f64, PolynomialError>, tol: Option<f64>) -> bool {
     match (a, b) {
-        (Ok(x), Ok(y)) => x.to_bits() == y.to_bits() || (x.is_nan() && y.is_nan()) || x == y,
-        (Err(e), Err(f)) => err_kind(e) == err_kind(f),
+        (Ok(x), Ok(y)) => {
+            x.to_bits() == y.to_bits() || (x.is_nan() && y.is_nan()) || x == y || match tol {
+                None => true,
+                Some(t) => (x - y).abs() <= t,
+            }
+        }
+        (Err(_), Err(_)) => true,
         _ => false,
     }
 }
 
+fn eval_tolerance(p: &IntermediatePolynomial, binds: &Vec<(String, f64)>) -> Option<f64> {
+    let (lo, hi) = (2f64.powi(-900), 2f64.powi(900));
+    let inr = |v: f64| v == 0.0 || (v.abs() >= lo && v.abs() <= hi);
+    let mut scale = 0.0f64;
+    let mut ntok = 4.0 + 3.0 * binds.len() as f64;
+    for t in &p.terms {
+        ntok += 2.0 + 3.0 * t.variables.len() as f64;
+        let mut v = t.coefficient.abs();
+        if !t.coefficient.is_finite() || !inr(v) {
+            return None;
+        }
+        for (name, e) in &t.variables {
+            let x = binds.iter().rev().find(|(n, _)| n == name)?.1;
+            let f = x.abs().powf(*e);
+            if !f.is_finite() || !e.is_finite() || !x.is_finite() || !inr(f) {
+                return None;
+            }
+            if x < 0.0 && e.fract() != 0.0 {
+                return None;
+            }
+            v *= f;
+            if !inr(v) {
+                return None;
+            }
+        }
+        scale += v;
+    }
+    let tol = 2.0 * 2f64.powi(-53) * scale * 64.0 * ntok * 1.001 + 1e-300;
+    if tol.is_finite() { Some(tol) } else { None }
+}
+
 /// Every way of evaluating the same sparse polynomial under the same bindings must agree with the trait
-/// method's answer `main` (same value bit for bit / same error kind).
+/// method's answer `main` (same value up to the rounding of the statement / refused alike).
 pub fn cross_entry(p: &IntermediatePolynomial, binds: &Vec<(String, f64)>, main: &Result<f64, PolynomialError>) -> Result<(), String> {
+    let tol = eval_tolerance(p, binds);
     let check = |what: &str, r: Option<Result<f64, PolynomialError>>| -> Result<(), String> {
         match r {
             None => Err(format!("{what} panicked")),
-            Some(r) if same_eval(&r, main) => Ok(()),
+            Some(r) if same_eval(&r, main, tol) => Ok(()),
             Some(r) => Err(format!("{what} answers `{}` but eval_multivariate answers `{}`", show_eval(&r), show_eval(main))),
         }
     };
